@@ -1,3 +1,299 @@
-/-! # C04 — property theorems (to be written) -/
+import BddVerif.Lemmas.Flip
+import BddVerif.Lemmas.TernaryCanon
+import BddVerif.Model.Limit
+import BddVerif.Gen.OpTables
+/-!
+# C04 — fused variable flips act as input/output bit inversion
+
+Property theorems about the model of `fused_binary_flip_op` (`Lim.fusedBinaryFlipOp`, whose `ok` value is
+`applyWithFlip`) and of `fused_ternary_flip_op` (`Lim.fusedTernaryFlipOp`). Helper lemmas live in
+`Lemmas/Flip.lean` and `Core/*`. `Gen.and_` (used by the separately performed flip) is regenerated from
+`src/op_function.rs` on every run.
+
+Reading guide: an operand `A` over `n` variables denotes the function `u ↦ evW A n u (root A)`; the result
+array `X` denotes `den X`; `inv f v` is the valuation `v` with the variable `f` inverted (`inv none v = v`).
+-/
 namespace B.Props.C04
+open B B.Lim
+
+/-- `inv none` is the identity: an absent flip does nothing -/
+theorem inv_none (v : Nat → Bool) : inv none v = v := rfl
+/-- `inv (some x) v` is `v` with exactly the bit of variable `x` inverted -/
+theorem inv_some (x : Nat) (v : Nat → Bool) (j : Nat) : inv (some x) v j = if j = x then !(v j) else v j := rfl
+
+/-- **fused2_spec.** The fused binary operator returns the function `r` with `r(v) = g(v with the output-flip
+    variable inverted)` where `g(u) = c (L(u with L's flip variable inverted)) (R(u with R's flip variable
+    inverted))`; absent flips are the identity (`inv_none`). All well-formed operands (merely valid ones
+    included), all consistent partial tables, all flip combinations (equal, distinct, on variables nobody
+    mentions). -/
+theorem fused2_spec (L R : Arr) (n : Nat) (op : Op2) (c : Bool → Bool → Bool) (fl fr fo : Option Nat)
+    (hL : WFo L n) (hR : WFo R n) (hc : Consistent op c)
+    (hfl : ∀ x, fl = some x → x < n) (hfr : ∀ x, fr = some x → x < n) (hfo : ∀ x, fo = some x → x < n) :
+    let g : (Nat → Bool) → Bool := fun u => c (evW L n (inv fl u) (root L)) (evW R n (inv fr u) (root R))
+    ∀ v, den (applyWithFlip L R op fl fr fo) v = g (inv fo v) := by
+  intro g v
+  exact applyWithFlip_den L R n op c fl fr fo hL hR hc hfl hfr hfo v
+
+/-- the same statement for the result used as an operand of a later operation (`evW` instead of `den`),
+    together with its well-formedness -/
+theorem fused2_operand (L R : Arr) (n : Nat) (op : Op2) (c : Bool → Bool → Bool) (fl fr fo : Option Nat)
+    (hL : WFo L n) (hR : WFo R n) (hc : Consistent op c)
+    (hfl : ∀ x, fl = some x → x < n) (hfr : ∀ x, fr = some x → x < n) (hfo : ∀ x, fo = some x → x < n) :
+    WFo (applyWithFlip L R op fl fr fo) n ∧
+    ∀ v, evW (applyWithFlip L R op fl fr fo) n v (root (applyWithFlip L R op fl fr fo)) =
+      c (evW L n (inv fl (inv fo v)) (root L)) (evW R n (inv fr (inv fo v)) (root R)) := by
+  rw [applyWithFlip_eq_canon L R n op c fl fr fo hL hR (numVars_of_wf hL) hc hfl hfr hfo]
+  exact ⟨canon_wfo n _ (specFn_dep L R n c fl fr fo hL hR),
+    fun v => canon_evW n _ (specFn_dep L R n c fl fr fo hL hR) v⟩
+
+/-! ### the separately performed steps -/
+
+theorem and_consistent : Consistent Gen.and_ (fun a b => a && b) := by
+  refine ⟨?_, ?_, ?_, ?_⟩
+  · intro x y; cases x <;> cases y <;> rfl
+  · intro x r h y; cases x <;> cases y <;> simp_all [Gen.and_]
+  · intro y r h x; cases x <;> cases y <;> simp_all [Gen.and_]
+  · intro r h; simp [Gen.and_] at h
+
+/-- a single flip as its own library call: `fused_binary_flip_op((b, x), (true, None), None, and)`;
+    an absent flip is no call at all -/
+def flipB (b : Arr) : Option Nat → Arr
+  | none => b
+  | some x => applyWithFlip b (mkTrue (numVars b)) Gen.and_ (some x) none none
+
+/-- flip the operands, apply the plain operator, flip the output — four separate library calls -/
+def separate2 (L R : Arr) (op : Op2) (fl fr fo : Option Nat) : Arr :=
+  flipB (applyWithFlip (flipB L fl) (flipB R fr) op none none none) fo
+
+theorem flipB_some_eq (b : Arr) (n x : Nat) (hb : WFo b n) (hx : x < n) :
+    flipB b (some x) = canon n (fun v => evW b n (inv (some x) v) (root b)) := by
+  show applyWithFlip b (mkTrue (numVars b)) Gen.and_ (some x) none none = _
+  rw [numVars_of_wf hb,
+    applyWithFlip_eq_canon b (mkTrue n) n Gen.and_ (fun a b => a && b) (some x) none none hb (wfo_mkTrue n)
+      (numVars_of_wf hb) and_consistent (fun y h => by cases h; exact hx) (by simp) (by simp)]
+  apply canon_congr
+  intro v
+  have : evW (mkTrue n) n (inv none (inv none v)) (root (mkTrue n)) = true := by
+    simp [root, mkTrue, evW_one]
+  rw [this, Bool.and_true]; rfl
+
+theorem flip_dep (b : Arr) (n : Nat) (f : Option Nat) (hb : WFo b n) :
+    Dep n (fun v => evW b n (inv f v) (root b)) := by
+  intro v w h
+  apply evW_indep hb n _ (root_lt hb) (by omega)
+  intro i _ hin
+  exact inv_agree _ _ _ _ (h i hin)
+
+/-- a separately performed flip yields a well-formed operand denoting the bit-inverted function -/
+theorem flipB_spec (b : Arr) (n : Nat) (f : Option Nat) (hb : WFo b n) (hf : ∀ x, f = some x → x < n) :
+    WFo (flipB b f) n ∧ ∀ v, evW (flipB b f) n v (root (flipB b f)) = evW b n (inv f v) (root b) := by
+  cases f with
+  | none => exact ⟨hb, fun v => rfl⟩
+  | some x =>
+    rw [flipB_some_eq b n x hb (hf x rfl)]
+    exact ⟨canon_wfo n _ (flip_dep b n (some x) hb), fun v => canon_evW n _ (flip_dep b n (some x) hb) v⟩
+
+/-- **fused_eq_separate.** The fused result is IDENTICAL (same nodes at the same indices) to the result of
+    performing the flips and the operator as separate steps, for any combination of equal or different flip
+    variables, including absent ones and variables the operands do not depend on. -/
+theorem fused_eq_separate (L R : Arr) (n : Nat) (op : Op2) (c : Bool → Bool → Bool) (fl fr fo : Option Nat)
+    (hL : WFo L n) (hR : WFo R n) (hc : Consistent op c)
+    (hfl : ∀ x, fl = some x → x < n) (hfr : ∀ x, fr = some x → x < n) (hfo : ∀ x, fo = some x → x < n) :
+    applyWithFlip L R op fl fr fo = separate2 L R op fl fr fo := by
+  obtain ⟨hL', eL⟩ := flipB_spec L n fl hL hfl
+  obtain ⟨hR', eR⟩ := flipB_spec R n fr hR hfr
+  obtain ⟨hM, eM⟩ := fused2_operand (flipB L fl) (flipB R fr) n op c none none none hL' hR' hc (by simp) (by simp) (by simp)
+  rw [applyWithFlip_eq_canon L R n op c fl fr fo hL hR (numVars_of_wf hL) hc hfl hfr hfo]
+  unfold separate2
+  cases fo with
+  | none =>
+    show _ = applyWithFlip (flipB L fl) (flipB R fr) op none none none
+    rw [applyWithFlip_eq_canon (flipB L fl) (flipB R fr) n op c none none none hL' hR' (numVars_of_wf hL') hc
+      (by simp) (by simp) (by simp)]
+    apply canon_congr
+    intro v
+    rw [eL, eR]; rfl
+  | some x =>
+    rw [flipB_some_eq _ n x hM (hfo x rfl)]
+    apply canon_congr
+    intro v
+    rw [eM, eL, eR]; rfl
+
+/-- **flip_bounds.** In the model of the public function, the `panic` outcome occurs exactly when the variable
+    counts differ or some flip variable is `≥ num_vars` (`check_flip_bounds`); otherwise the outcome is `ok`
+    with the array of `applyWithFlip`. Nothing else panics. -/
+theorem flip_bounds (L R : Arr) (op : Op2) (fl fr fo : Option Nat) :
+    ((fusedBinaryFlipOp L R op fl fr fo).isPanic = true ↔
+      (numVars R ≠ numVars L ∨ (∃ x, fl = some x ∧ numVars L ≤ x) ∨ (∃ x, fr = some x ∧ numVars L ≤ x) ∨
+        (∃ x, fo = some x ∧ numVars L ≤ x))) ∧
+    ((fusedBinaryFlipOp L R op fl fr fo).isPanic = false →
+      fusedBinaryFlipOp L R op fl fr fo = .ok (applyWithFlip L R op fl fr fo)) := by
+  have hflip : ∀ f : Option Nat, flipOk (numVars L) f = false ↔ ∃ x, f = some x ∧ numVars L ≤ x := by
+    intro f
+    cases f with
+    | none => simp [flipOk]
+    | some x => simp [flipOk]
+  unfold fusedBinaryFlipOp
+  by_cases hn : numVars R ≠ numVars L
+  · simp [hn, Outcome.isPanic]
+  · simp only [hn, if_false]
+    by_cases hok : (flipOk (numVars L) fl && flipOk (numVars L) fr && flipOk (numVars L) fo) = true
+    · have h1 : flipOk (numVars L) fl = true := by simp only [Bool.and_eq_true] at hok; exact hok.1.1
+      have h2 : flipOk (numVars L) fr = true := by simp only [Bool.and_eq_true] at hok; exact hok.1.2
+      have h3 : flipOk (numVars L) fo = true := by simp only [Bool.and_eq_true] at hok; exact hok.2
+      have n1 : ¬ ∃ x, fl = some x ∧ numVars L ≤ x := fun h => by rw [← hflip, h1] at h; cases h
+      have n2 : ¬ ∃ x, fr = some x ∧ numVars L ≤ x := fun h => by rw [← hflip, h2] at h; cases h
+      have n3 : ¬ ∃ x, fo = some x ∧ numVars L ≤ x := fun h => by rw [← hflip, h3] at h; cases h
+      simp [hok, Outcome.isPanic, n1, n2, n3]
+    · have : (flipOk (numVars L) fl = false ∨ flipOk (numVars L) fr = false) ∨ flipOk (numVars L) fo = false := by
+        cases h1 : flipOk (numVars L) fl <;> cases h2 : flipOk (numVars L) fr <;>
+          cases h3 : flipOk (numVars L) fo <;> simp_all
+      have hbad : (∃ x, fl = some x ∧ numVars L ≤ x) ∨ (∃ x, fr = some x ∧ numVars L ≤ x) ∨
+          (∃ x, fo = some x ∧ numVars L ≤ x) := by
+        rcases this with (h | h) | h
+        · exact Or.inl ((hflip fl).1 h)
+        · exact Or.inr (Or.inl ((hflip fr).1 h))
+        · exact Or.inr (Or.inr ((hflip fo).1 h))
+      simp only [hok]
+      simp [Outcome.isPanic, hbad]
+
+/-- the bound hypotheses of the theorems above are exactly "no panic" -/
+theorem no_panic_of_bounds (L R : Arr) (n : Nat) (op : Op2) (fl fr fo : Option Nat)
+    (hL : WFo L n) (hR : WFo R n)
+    (hfl : ∀ x, fl = some x → x < n) (hfr : ∀ x, fr = some x → x < n) (hfo : ∀ x, fo = some x → x < n) :
+    fusedBinaryFlipOp L R op fl fr fo = .ok (applyWithFlip L R op fl fr fo) := by
+  apply (flip_bounds L R op fl fr fo).2
+  have hn := numVars_of_wf hL
+  have hn' := numVars_of_wf hR
+  cases hp : (fusedBinaryFlipOp L R op fl fr fo).isPanic with
+  | false => rfl
+  | true =>
+    exfalso
+    rcases (flip_bounds L R op fl fr fo).1.1 hp with h | ⟨x, e, h⟩ | ⟨x, e, h⟩ | ⟨x, e, h⟩
+    · exact h (by rw [hn, hn'])
+    · have := hfl x e; omega
+    · have := hfr x e; omega
+    · have := hfo x e; omega
+
+/-! ### three operands (simulation theorem `ternaryApply_eq_canon` from `Lemmas/TernaryCanon.lean`) -/
+
+/-- **fused3_spec.** The fused ternary operator returns `r` with `r(v) = g(v with the output-flip variable
+    inverted)`, `g(u) = c (A(u with A's flip inverted)) (B(u with B's flip inverted)) (C(u with C's flip
+    inverted))`; absent flips are the identity. -/
+theorem fused3_spec (A B C : Arr) (n : Nat) (op : Op3) (c : Bool → Bool → Bool → Bool) (fa fb fc fo : Option Nat)
+    (hA : WFo A n) (hB : WFo B n) (hC : WFo C n) (hc : Consistent3 op c)
+    (hfa : ∀ x, fa = some x → x < n) (hfb : ∀ x, fb = some x → x < n) (hfc : ∀ x, fc = some x → x < n)
+    (_hfo : ∀ x, fo = some x → x < n) :
+    let g : (Nat → Bool) → Bool := fun u =>
+      c (evW A n (inv fa u) (root A)) (evW B n (inv fb u) (root B)) (evW C n (inv fc u) (root C))
+    ∀ v, den (ternaryApply A B C op fa fb fc fo) v = g (inv fo v) := by
+  intro g v
+  exact ternaryApply_den A B C n op c fa fb fc fo hA hB hC hc hfa hfb hfc v
+
+theorem fused3_operand (A B C : Arr) (n : Nat) (op : Op3) (c : Bool → Bool → Bool → Bool) (fa fb fc fo : Option Nat)
+    (hA : WFo A n) (hB : WFo B n) (hC : WFo C n) (hc : Consistent3 op c)
+    (hfa : ∀ x, fa = some x → x < n) (hfb : ∀ x, fb = some x → x < n) (hfc : ∀ x, fc = some x → x < n) :
+    WFo (ternaryApply A B C op fa fb fc fo) n ∧
+    ∀ v, evW (ternaryApply A B C op fa fb fc fo) n v (root (ternaryApply A B C op fa fb fc fo)) =
+      c (evW A n (inv fa (inv fo v)) (root A)) (evW B n (inv fb (inv fo v)) (root B))
+        (evW C n (inv fc (inv fo v)) (root C)) := by
+  rw [ternaryApply_eq_canon A B C n op c fa fb fc fo hA hB hC hc hfa hfb hfc]
+  exact ⟨canon_wfo n _ (specFn3_dep A B C n c fa fb fc fo hA hB hC),
+    fun v => canon_evW n _ (specFn3_dep A B C n c fa fb fc fo hA hB hC) v⟩
+
+/-- flip the three operands, apply the plain ternary operator, flip the output — five separate library calls -/
+def separate3 (A B C : Arr) (op : Op3) (fa fb fc fo : Option Nat) : Arr :=
+  flipB (ternaryApply (flipB A fa) (flipB B fb) (flipB C fc) op none none none none) fo
+
+/-- **fused3_eq_separate.** The fused ternary result is identical, as an array, to the separately performed
+    flips and operator, for any combination of equal or different flip variables. -/
+theorem fused3_eq_separate (A B C : Arr) (n : Nat) (op : Op3) (c : Bool → Bool → Bool → Bool)
+    (fa fb fc fo : Option Nat)
+    (hA : WFo A n) (hB : WFo B n) (hC : WFo C n) (hc : Consistent3 op c)
+    (hfa : ∀ x, fa = some x → x < n) (hfb : ∀ x, fb = some x → x < n) (hfc : ∀ x, fc = some x → x < n)
+    (hfo : ∀ x, fo = some x → x < n) :
+    ternaryApply A B C op fa fb fc fo = separate3 A B C op fa fb fc fo := by
+  obtain ⟨hA', eA⟩ := flipB_spec A n fa hA hfa
+  obtain ⟨hB', eB⟩ := flipB_spec B n fb hB hfb
+  obtain ⟨hC', eC⟩ := flipB_spec C n fc hC hfc
+  obtain ⟨hM, eM⟩ := fused3_operand (flipB A fa) (flipB B fb) (flipB C fc) n op c none none none none
+    hA' hB' hC' hc (by simp) (by simp) (by simp)
+  rw [ternaryApply_eq_canon A B C n op c fa fb fc fo hA hB hC hc hfa hfb hfc]
+  unfold separate3
+  cases fo with
+  | none =>
+    show _ = ternaryApply (flipB A fa) (flipB B fb) (flipB C fc) op none none none none
+    rw [ternaryApply_eq_canon (flipB A fa) (flipB B fb) (flipB C fc) n op c none none none none hA' hB' hC' hc
+      (by simp) (by simp) (by simp)]
+    apply canon_congr
+    intro v
+    rw [eA, eB, eC]; rfl
+  | some x =>
+    rw [flipB_some_eq _ n x hM (hfo x rfl)]
+    apply canon_congr
+    intro v
+    rw [eM, eA, eB, eC]; rfl
+
+/-- the bound check of the ternary entry point (proved: it does not depend on the simulation) -/
+theorem flip_bounds3 (A B C : Arr) (op : Op3) (fa fb fc fo : Option Nat)
+    (hn : numVars A = numVars B ∧ numVars B = numVars C)
+    (h1 : flipOk (numVars A) fa = true) (h2 : flipOk (numVars A) fb = true)
+    (h3 : flipOk (numVars A) fc = true) (h4 : flipOk (numVars A) fo = true) :
+    fusedTernaryFlipOp A B C op fa fb fc fo = .ok (ternaryApply A B C op fa fb fc fo) := by
+  unfold fusedTernaryFlipOp
+  have : ¬ (numVars A ≠ numVars B ∨ numVars B ≠ numVars C) := by
+    intro h; rcases h with h | h
+    · exact h hn.1
+    · exact h hn.2
+  simp [this, h1, h2, h3, h4]
+
+theorem flip_bounds3_panic (A B C : Arr) (op : Op3) (fa fb fc fo : Option Nat)
+    (h : numVars A ≠ numVars B ∨ numVars B ≠ numVars C ∨ flipOk (numVars A) fa = false ∨
+      flipOk (numVars A) fb = false ∨ flipOk (numVars A) fc = false ∨ flipOk (numVars A) fo = false) :
+    (fusedTernaryFlipOp A B C op fa fb fc fo).isPanic = true := by
+  unfold fusedTernaryFlipOp
+  by_cases hn : numVars A ≠ numVars B ∨ numVars B ≠ numVars C
+  · simp [hn, Outcome.isPanic]
+  · have hf : (flipOk (numVars A) fa && flipOk (numVars A) fb && flipOk (numVars A) fc && flipOk (numVars A) fo) = false := by
+      rcases h with h | h | h | h | h | h
+      · exact absurd (Or.inl h) hn
+      · exact absurd (Or.inr h) hn
+      · simp [h]
+      · simp [h]
+      · simp [h]
+      · simp [h]
+    simp [hn, hf, Outcome.isPanic]
+
+/-! ### non-vacuity: the hypotheses are satisfiable on concrete non-trivial values -/
+
+/-- all three flips present, one of them (`x1` for the left operand `x0 ∧ x2`) on a variable the operand does
+    not mention -/
+example : ∀ v, den (applyWithFlip exX0X2 exX1 andLazy (some 1) (some 1) (some 0)) v =
+    (fun u => evW exX0X2 3 (inv (some 1) u) (root exX0X2) && evW exX1 3 (inv (some 1) u) (root exX1)) (inv (some 0) v) :=
+  fused2_spec exX0X2 exX1 3 andLazy (fun x y => x && y) (some 1) (some 1) (some 0)
+    exX0X2_wf exX1_wf andLazy_consistent (by simp) (by simp) (by simp)
+
+example : applyWithFlip exX0X2 exX1 andLazy (some 2) (some 1) (some 0) =
+    separate2 exX0X2 exX1 andLazy (some 2) (some 1) (some 0) :=
+  fused_eq_separate exX0X2 exX1 3 andLazy (fun x y => x && y) (some 2) (some 1) (some 0)
+    exX0X2_wf exX1_wf andLazy_consistent (by simp) (by simp) (by simp)
+
+/-- ... and the common value is a concrete non-trivial array (see `Core/ApplyCanon.lean`) -/
+example : separate2 exX0X2 exX1 andLazy (some 2) (some 1) (some 0) =
+    #[⟨3, 0, 0⟩, ⟨3, 1, 1⟩, ⟨2, 1, 0⟩, ⟨1, 2, 0⟩, ⟨0, 3, 0⟩] := by
+  rw [← fused_eq_separate exX0X2 exX1 3 andLazy (fun x y => x && y) (some 2) (some 1) (some 0)
+    exX0X2_wf exX1_wf andLazy_consistent (by simp) (by simp) (by simp)]
+  exact (applyWithFlip_eq_canon exX0X2 exX1 3 andLazy (fun x y => x && y) (some 2) (some 1) (some 0)
+    exX0X2_wf exX1_wf rfl andLazy_consistent (by simp) (by simp) (by simp)).trans (by decide)
+
+/-- ternary: `if_then_else` table, three level-skipping / single-variable operands, all four flips present -/
+example : ternaryApply exX0X2 exX1 exX2 Gen.ite_ (some 2) (some 1) (some 0) (some 1) =
+    separate3 exX0X2 exX1 exX2 Gen.ite_ (some 2) (some 1) (some 0) (some 1) :=
+  fused3_eq_separate exX0X2 exX1 exX2 3 Gen.ite_ (fun a b c => if a then b else c) (some 2) (some 1) (some 0) (some 1)
+    exX0X2_wf exX1_wf exX2_wf ite_consistent3 (by simp) (by simp) (by simp) (by simp)
+
+/-- an out-of-range flip is the `panic` outcome -/
+example : (fusedBinaryFlipOp exX0 exX1 andLazy none (some 3) none).isPanic = true :=
+  (flip_bounds exX0 exX1 andLazy none (some 3) none).1.2 (Or.inr (Or.inr (Or.inl ⟨3, rfl, by decide⟩)))
+
 end B.Props.C04
